@@ -8,8 +8,10 @@ import (
 	"io"
 	"strings"
 
+	"go.pennock.tech/tabular"
 	"go.pennock.tech/tabular/json"
 	"go.pennock.tech/tabular/properties"
+	"go.pennock.tech/tabular/properties/align"
 
 	"verif/harness/internal/ev"
 	"verif/harness/internal/gen"
@@ -21,6 +23,74 @@ const ID = "C07"
 type Case struct {
 	Script gen.Script `json:"script"`
 	Skip   []int      `json:"skip,omitempty"` // [0] = column 0 (default), [i] = column i
+	// Props is a history of property operations on the columns, applied in order after Skip: the last
+	// setting of a key on a column wins and setting nil removes it, whatever else the column carries.
+	Props []PropOp `json:"props,omitempty"`
+}
+
+// PropOp: Key "skip" (Val 0 remove, 1 true, 2 false, 3 non-bool), "align" (Val 0 remove, 1..3) or "user" (Val 0 remove, else a value).
+type PropOp struct {
+	Col int    `json:"col"`
+	Key string `json:"key"`
+	Val int    `json:"val,omitempty"`
+}
+
+type userKey struct{}
+
+// applyProps performs the property history on the table and returns the effective skipable codes.
+func applyProps(t tabular.Table, c Case, n int) []int {
+	codes := make([]int, n+1)
+	for i, code := range c.Skip {
+		if i <= n {
+			codes[i] = code
+			if v := skipValue(code); v != nil {
+				t.Column(i).SetProperty(properties.Skipable, v)
+			}
+		}
+	}
+	for _, op := range c.Props {
+		col := ((op.Col % (n + 1)) + n + 1) % (n + 1)
+		h := t.Column(col)
+		switch op.Key {
+		case "skip":
+			codes[col] = op.Val % 4
+			h.SetProperty(properties.Skipable, skipValue(op.Val%4))
+		case "align":
+			var v interface{}
+			switch op.Val % 4 {
+			case 1:
+				v = align.Left
+			case 2:
+				v = align.Right
+			case 3:
+				v = align.Center
+			}
+			h.SetProperty(align.PropertyType, v)
+		default:
+			if op.Val == 0 {
+				h.SetProperty(userKey{}, nil)
+			} else {
+				h.SetProperty(userKey{}, op.Val)
+			}
+		}
+	}
+	return codes
+}
+
+// effective computes the skipable codes the property history leaves behind (model side).
+func effective(c Case, n int) []int {
+	codes := make([]int, n+1)
+	for i, code := range c.Skip {
+		if i <= n {
+			codes[i] = code
+		}
+	}
+	for _, op := range c.Props {
+		if op.Key == "skip" {
+			codes[((op.Col%(n+1))+n+1)%(n+1)] = op.Val % 4
+		}
+	}
+	return codes
 }
 
 func skipValue(code int) interface{} {
@@ -46,9 +116,10 @@ func expect(c Case, m *gen.Model) (wantErr string, objs [][]pair) {
 	if n == 0 {
 		return "no columns", nil
 	}
+	eff := effective(c, n)
 	code := func(i int) int {
-		if i < len(c.Skip) {
-			return c.Skip[i]
+		if i < len(eff) {
+			return eff[i]
 		}
 		return 0
 	}
@@ -166,11 +237,8 @@ func CheckCase(c Case) *ev.Violation {
 	if t.NColumns() != m.NCols() {
 		return ev.V("NColumns()=%d but the build history has %d columns", t.NColumns(), m.NCols())
 	}
-	for i, code := range c.Skip {
-		if v := skipValue(code); v != nil && i <= m.NCols() {
-			t.Column(i).SetProperty(properties.Skipable, v)
-		}
-	}
+	applyProps(t, c, m.NCols())
+	gen.ScrambleRowsCopy(t) // the caller may do what it likes with the copy it was handed
 	w := json.Wrap(t)
 	out, err := w.Render()
 	wantErr, want := expect(c, m)
@@ -293,6 +361,17 @@ func Classify(c Case) (bool, interface{}, []string) {
 	for _, s := range c.Skip {
 		if s == 3 {
 			add("non-bool-skipable")
+		}
+	}
+	seenSkip := map[int]bool{}
+	for _, op := range c.Props {
+		if op.Key == "skip" {
+			if op.Val%4 == 0 && seenSkip[op.Col] {
+				add("skipable-removed-again")
+			}
+			seenSkip[op.Col] = true
+		} else {
+			add("other-property-on-column")
 		}
 	}
 	return nt, nil, cl
